@@ -327,3 +327,49 @@ def _rounding(h, which):
 
 for _w in ('integers', 'rounded', 'precision'):
     contract('C16/constraints.%s' % _w, ['C16'], K + _w + '.dec.func', samples=150)(lambda h, w=_w: _rounding(h, w))
+
+
+# ---------------------------------------------------------------------------- sorting / monotonic
+ORDER_INDEX = [None, (0, 2), (1, 2), (2, 0, 1)]
+
+
+def _ordering(h, which):
+    """sorting: the selected entries are rearranged into ascending / descending order IN their own positions (the result is
+    a permutation of the input on those positions); monotonic: each selected entry is raised (lowered) to the running
+    maximum (minimum) of the selected entries before it, so the selected entries are non-decreasing (non-increasing) and
+    an entry already in order is unchanged.  Entries not selected are unchanged, the caller's vector is not modified,
+    already-ordered input is left alone.  Inner mode (the transform is applied to the input of f)."""
+    import itertools
+    n = 3
+    index = h.choice('index', ORDER_INDEX)
+    asc = h.choice('ascending', [True, False])
+    x = h.vec('x', n)
+    x0 = h.snapshot(x)
+    inner = h.fn('F', ret='real', log='calls')
+    idx = None if index is None else (h.tup(*index) if h.is_sym() else tuple(index))
+    func = h.call(h.call(h.get(K + which), asc, False, idx), inner)
+    h.call(func, x)
+    calls = h.log('calls')
+    h.check('decorated-function-called-once-with-a-vector-of-the-same-length', 'len(calls) == 1 and len(calls[0][0]) == n', calls=calls, n=n)
+    y = calls[0][0]
+    sel = sorted(range(n) if index is None else set(index))
+    rest = [i for i in range(n) if i not in sel]
+    cmp = '<=' if asc else '>='
+    h.check('selected-entries-in-order', ' and '.join('y[%d] %s y[%d]' % (a, cmp, b) for a, b in zip(sel, sel[1:])) or 'True', y=y)
+    h.check('entries-not-selected-unchanged', ' and '.join('y[%d] == x0[%d]' % (i, i) for i in rest) or 'True', y=y, x0=x0)
+    if which == 'sorting':
+        perms = ['(%s)' % ' and '.join('y[%d] == x0[%d]' % (a, b) for a, b in zip(sel, p)) for p in itertools.permutations(sel)]
+        h.check('selected-entries-are-a-rearrangement-of-the-input', ' or '.join(perms), y=y, x0=x0)
+    else:
+        ext = 'max' if asc else 'min'
+        conj = ['y[%d] == x0[%d]' % (sel[0], sel[0])]
+        for k in range(1, len(sel)):
+            conj.append('y[%d] == %s(%s)' % (sel[k], ext, ', '.join('x0[%d]' % j for j in sel[:k + 1])))
+        h.check('each-selected-entry-is-the-running-extreme-of-those-before-it', ' and '.join(conj), y=y, x0=x0)
+    inorder = ' and '.join('x0[%d] %s x0[%d]' % (a, cmp, b) for a, b in zip(sel, sel[1:])) or 'True'
+    h.check('conforming-input-left-alone', 'implies(%s, seq_eq(y, x0))' % inorder, y=y, x0=x0)
+    h.check('input-vector-not-modified', 'seq_eq(x, x0)', x=x, x0=x0)
+
+
+for _w in ('sorting', 'monotonic'):
+    contract('C16/constraints.%s' % _w, ['C16'], K + _w + '.dec.func', samples=150)(lambda h, w=_w: _ordering(h, w))
